@@ -180,7 +180,7 @@ func peersObs(peers []*net.TCPAddr) string {
 	return joinOrDash(ps)
 }
 
-func errObs(err error) string {
+func repErrObs(err error) string {
 	var terr *tracker.Error
 	var serr *httptracker.StatusError
 	switch {
@@ -201,14 +201,14 @@ func errObs(err error) string {
 
 func respObs(resp *tracker.AnnounceResponse, err error) string {
 	if err != nil {
-		return errObs(err)
+		return repErrObs(err)
 	}
 	return fmt.Sprintf("ok iv=%d mi=%d peers=%s", int64(resp.Interval/time.Second), int64(resp.MinInterval/time.Second), peersObs(resp.Peers))
 }
 
 // ---- generator ----
 
-func bstr(s string) string { return fmt.Sprintf("%d:%s", len(s), s) }
+func repBstr(s string) string { return fmt.Sprintf("%d:%s", len(s), s) }
 
 func genUDPSpecs(r *Rng, forAnnounce bool) string {
 	if r.Chance(35) {
@@ -270,26 +270,26 @@ func genHTTPOp(r *Rng) string {
 		}
 		s := "d"
 		if xip != "" {
-			s += bstr("external ip") + bstr(xip)
+			s += repBstr("external ip") + repBstr(xip)
 		}
-		s += bstr("interval") + fmt.Sprintf("i%de", iv) + bstr("min interval") + fmt.Sprintf("i%de", mi) + bstr("peers") + bstr(string(pe)) + "e"
+		s += repBstr("interval") + fmt.Sprintf("i%de", iv) + repBstr("min interval") + fmt.Sprintf("i%de", mi) + repBstr("peers") + repBstr(string(pe)) + "e"
 		body = []byte(s)
 		extra = fmt.Sprintf("iv=%d mi=%d pe=%s xip=%s", iv, mi, hexs(pe), hexs([]byte(xip)))
 	case "dict":
 		n := r.Range(0, 4)
 		var dps []string
-		s := "d" + bstr("interval") + "i900e" + bstr("peers") + "l"
+		s := "d" + repBstr("interval") + "i900e" + repBstr("peers") + "l"
 		for i := 0; i < n; i++ {
 			ip := r.pickStr("1.2.3.4", "10.0.0.1", "255.255.255.255", "tracker.example.org", "", "::1", "2001:db8::1", "1.2.3", "999.1.1.1", "localhost")
 			port := r.Pick(0, 1, 6881, 65535)
-			s += "d" + bstr("ip") + bstr(ip) + bstr("port") + fmt.Sprintf("i%de", port) + "e"
+			s += "d" + repBstr("ip") + repBstr(ip) + repBstr("port") + fmt.Sprintf("i%de", port) + "e"
 			dps = append(dps, fmt.Sprintf("%s|%d", hexs([]byte(ip)), port))
 		}
 		s += "ee"
 		body = []byte(s)
 		extra = "iv=900 mi=0 dp=" + joinOrDash(dps)
 	case "fail":
-		body = []byte("d" + bstr("failure reason") + bstr("not registered") + bstr("retry in") + bstr(r.pickStr("5", "never", "")) + "e")
+		body = []byte("d" + repBstr("failure reason") + repBstr("not registered") + repBstr("retry in") + repBstr(r.pickStr("5", "never", "")) + "e")
 	case "raw":
 		body = r.Bytes(r.Range(0, 40))
 		if r.Chance(50) {
